@@ -21,6 +21,7 @@ META = {
         "R04.3": "all-or-nothing removal: size >= arity dominates the first pop; Underflow payloads; top* take &self",
         "R04.4": "LIFO order of top/top2/top3/pop2/pop3/push_many/try_extend/discard",
         "R04.5": "panic-site audit (A8) of the stack API",
+        "R04.6": "inventory of &mut self operations in Stack's impls: each is decided by R04.1-R04.4 or is all-or-nothing by construction (at most one mutating call per path, none in a loop or per-element closure)",
     },
     "trusted_base": ["std Vec::push/pop/extend/truncate/last/get/len, slice::reverse, Iterator::rev/take", "uecfacts driver + uecheck rule engine"],
     "assumptions": [],
@@ -342,6 +343,45 @@ def check(ctx):
     leaks = [fn.id for fn in F.fns.values() if own(fn.id) and fn.sig and "->" in fn.sig and
              re.search(r"&('[A-Za-z_0-9]+ )?mut (std::vec::Vec|\[)", fn.sig.split("->")[-1])]
     ctx.check(not leaks, "R04.2", "no-method-returns-&mut-Vec", str(leaks))
+
+    # ---- R04.6: inventory of the operations that can change a stack ---------------------------------
+    # every function in Stack's own impls that takes `&mut self` is either one of the operations the rules above
+    # decide individually, or must be all-or-nothing by construction: on each path at most one call of a fallible
+    # mutating operation, none inside a loop or a closure handed to an iterator adaptor (a second fallible step after
+    # a first successful one is exactly the partial-insertion / partial-removal bug class)
+    KNOWN_MUT = {"push", "pop", "pop2", "pop3", "discard", "push_many", "set_max_stack_size"}
+    MUTCALLS = ("Stack::push", "Stack::push_many", "Stack::pop", "Stack::pop2", "Stack::pop3", "Stack::discard", "TryExtend::try_extend", "TryExtend::try_extend_from_slice",
+                "Vec::push", "Vec::pop", "Vec::extend", "Extend::extend", "Vec::truncate", "Vec::clear", "Vec::insert", "Vec::remove", "Vec::swap_remove", "Vec::drain", "Vec::retain",
+                "Vec::append", "Vec::extend_from_slice", "Vec::resize", "Vec::split_off", "Vec::dedup", "[T]::reverse", "[T]::swap", "[T]::sort", "[T]::rotate_left", "[T]::rotate_right")
+    n_mut = 0
+    for fn in sorted(F.fns.values(), key=lambda f: f.id):
+        if not own(fn.id) or fn.is_closure or fn.kind == "InlineConst":
+            continue
+        t1 = (fn.locals[1]["ty"].get("s", "") if fn.argc >= 1 else "")
+        if not (t1.startswith("&mut ") and "Stack<" in t1) and not (t1.startswith("&") and " mut " in t1.split("Stack<")[0] and "Stack<" in t1):
+            continue
+        if (fn.span or {}).get("exp"):
+            continue            # derive-generated (Clone::clone_from ...)
+        n_mut += 1
+        short_name = fn.id.rsplit("::", 1)[-1]
+        if (fn.id.startswith(S) and short_name in KNOWN_MUT) or fn.id == TE:
+            ctx.ok("R04.6", "mutator/%s/decided-by-its-own-rules" % short_name, "R04.1/R04.3/R04.4", fn.at())
+            continue
+        ctx.fns_analysed.add(fn.id)
+        bad = None
+        fam = [fn] + [F.fns[c] for c in F.closures_of(fn.id) if c in F.fns]
+        for g in fam:
+            for p in ctx.paths(g):
+                mc = [c for c in p.calls() if callee_is(c, *MUTCALLS)]
+                if g.is_closure and mc:
+                    bad = "calls %s inside a closure (applied per element by an iterator adaptor)" % short(mc[0], 2)
+                elif len(mc) > 1:
+                    bad = "makes %d mutating calls on one path (%s)" % (len(mc), ", ".join(short(c, 1) for c in mc[:3]))
+                elif mc and p.end.startswith("loop:"):
+                    bad = "calls %s inside a loop" % short(mc[0], 2)
+        ctx.check(bad is None, "R04.6", "mutator/%s/all-or-nothing-by-construction" % fn.id.replace(" ", ""), "at most one mutating call per path, none repeated", fn.at(),
+                  bad_detail="%s is an operation on the stack that the rules do not know; it %s, so a failure after a partial change is possible (every operation must succeed completely or leave the contents as they were)" % (fn.id, bad))
+    ctx.floor("R04.6", n_mut, 8, "&mut self operations in Stack's impls")
 
     # ================= R04.3 / R04.4 removal ==============================================
     f = ctx.fn(S + "pop")
